@@ -359,7 +359,7 @@ def oracle_db(req, out):
 
 # ----------------------------------------------------------------------------- histories
 
-def gen_history(rng, bad, short=False):
+def gen_history(rng, bad, short=0.0):
     nt = rng.randrange(1, 6)
     tnames = rng.sample(TARGETS, nt)
     targets = []
@@ -381,7 +381,7 @@ def gen_history(rng, bad, short=False):
         if k < 0.93: return rng.choice([b"missing.klg", b"no/such.klg", b"", b".", b"sub"])
         return rand_text(rng, 6, bad=0.3 if bad else 0).replace(b"\x00", b"0")
     ops = []
-    nops = rng.randrange(1, 41) if not short or rng.random() < 0.25 else rng.randrange(1, 13)
+    nops = rng.randrange(1, 13) if rng.random() < short else rng.randrange(1, 41)
     for _ in range(nops):
         k = rng.random()
         if k < 0.40:
@@ -404,12 +404,14 @@ def gen_history(rng, bad, short=False):
 
 def gen_histories(tier, rng):
     n = 300 if tier == "quick" else 50000
-    return ["bm-history " + gen_history(rng, bad=(i % 10 == 9), short=(tier == "quick")) for i in range(n)]
+    # quick: three quarters of the histories have at most 12 commands; thorough: three in ten
+    frac = 0.75 if tier == "quick" else 0.3
+    return ["bm-history " + gen_history(rng, bad=(i % 10 == 9), short=frac) for i in range(n)]
 
 
 def gen_histories_raw(tier, rng):
     n = 40 if tier == "quick" else 3000
-    return ["bm-history-raw " + gen_history(rng, bad=False, short=(tier == "quick")) for i in range(n)]
+    return ["bm-history-raw " + gen_history(rng, bad=False, short=(0.75 if tier == "quick" else 0.3)) for i in range(n)]
 
 
 CWD = "/S/w"
@@ -421,6 +423,21 @@ def py_abs(arg):
     r = posixpath.normpath(posixpath.join(CWD, s))
     if r.startswith("//"): r = r[1:]
     return r.encode("latin-1")
+
+
+def go_base(s):
+    """filepath.Base as documented: last element; trailing slashes removed first; "" -> ".", only slashes -> "/" """
+    if s == "": return "."
+    s = s.rstrip("/")
+    if s == "": return "/"
+    return s.rsplit("/", 1)[-1]
+
+
+def go_dir(s):
+    """filepath.Dir as documented: all but the last element, cleaned ("/" for a file directly below the root)"""
+    head = s[:s.rfind("/") + 1]
+    r = posixpath.normpath(head) if head else "."
+    return r[1:] if r.startswith("//") else r
 
 
 def parse_history(req):
@@ -494,7 +511,7 @@ def oracle_history(req, out, raw=False):
                 if not ok: return where + ": info on the existing bookmark %r failed" % n
                 if not raw:
                     s = d[n].decode("latin-1")
-                    want = {"p": s, "d": posixpath.dirname(s), "f": posixpath.basename(s)}[g[1]]
+                    want = {"p": s, "d": go_dir(s), "f": go_base(s)}[g[1]]
                     if unhx(sf[1]).decode("latin-1") != want + "\n": return where + ": info printed %r, expected %r" % (unhx(sf[1]), want)
             elif ok: return where + ": info on the unknown bookmark %r succeeded" % n
         elif g[0] == "r":
